@@ -13,6 +13,10 @@ type StoredCase struct {
 	IDLast bool   `json:"idlast,omitempty"`
 	DupIDs bool   `json:"dup,omitempty"` // docs 0 and 1 share an id
 	Mode   uint32 `json:"mode"`
+	// Order of the field instances inside a document: 0 = all of a, then all of b;
+	// 1 = all of b, then all of a; 2 = interleaved a[0] b[0] a[1] b[1] (the shape of a
+	// flattened array of sub-objects: a field name recurs after a value of another field)
+	Order int `json:"order,omitempty"`
 }
 
 const NumStoredCells = 9
@@ -72,8 +76,21 @@ func (c StoredCase) Batch() spec.Batch {
 			id = "d0"
 		}
 		doc := spec.Doc{ID: id, IDLast: c.IDLast}
-		for fi, fn := range fieldNames {
-			doc.Fields = append(doc.Fields, storedCell(fn, c.Cells[d*2+fi], d)...)
+		fa, fb := storedCell(fieldNames[0], c.Cells[d*2], d), storedCell(fieldNames[1], c.Cells[d*2+1], d)
+		switch c.Order {
+		case 1:
+			doc.Fields = append(append(doc.Fields, fb...), fa...)
+		case 2:
+			for i := 0; i < len(fa) || i < len(fb); i++ {
+				if i < len(fa) {
+					doc.Fields = append(doc.Fields, fa[i])
+				}
+				if i < len(fb) {
+					doc.Fields = append(doc.Fields, fb[i])
+				}
+			}
+		default:
+			doc.Fields = append(append(doc.Fields, fa...), fb...)
 		}
 		b.Docs = append(b.Docs, doc)
 	}
@@ -81,7 +98,7 @@ func (c StoredCase) Batch() spec.Batch {
 }
 
 func (c StoredCase) Key() string {
-	return fmt.Sprintf("stored/%d/%v/%v/%v/%d", c.N, c.Cells, c.IDLast, c.DupIDs, c.Mode)
+	return fmt.Sprintf("stored/%d/%v/%v/%v/%d/%d", c.N, c.Cells, c.IDLast, c.DupIDs, c.Mode, c.Order)
 }
 
 func StoredBatches(tier string, emit func(StoredCase)) {
@@ -92,7 +109,9 @@ func StoredBatches(tier string, emit func(StoredCase)) {
 	emit(StoredCase{N: 0, Mode: 1026})
 	ProductOf(2, full, func(v []int) {
 		for _, idl := range []bool{false, true} {
-			emit(StoredCase{N: 1, Cells: v, IDLast: idl, Mode: 1026})
+			for order := 0; order < 3; order++ {
+				emit(StoredCase{N: 1, Cells: v, IDLast: idl, Mode: 1026, Order: order})
+			}
 		}
 	})
 	menu2 := full
@@ -101,6 +120,10 @@ func StoredBatches(tier string, emit func(StoredCase)) {
 	}
 	ProductOf(4, menu2, func(v []int) {
 		emit(StoredCase{N: 2, Cells: v, Mode: 1026})
+		if (v[0] == 6 && v[1] == 6) || (v[2] == 6 && v[3] == 6) {
+			emit(StoredCase{N: 2, Cells: v, Mode: 1026, Order: 2})
+			emit(StoredCase{N: 2, Cells: v, Mode: 1026, Order: 1})
+		}
 		if v[0] == 3 {
 			emit(StoredCase{N: 2, Cells: v, DupIDs: true, IDLast: true, Mode: 1})
 		}
